@@ -185,6 +185,32 @@ def scale_cases():
         "long-escape-run": "'" + "\\u0041" * 20000 + "'.length", "long-template": "`" + "x" * 1000 + "`", "neg-zero-key": "var o = {}; o[-0] = 1; o['-0']", "radix-huge": "(255).toString(1e21)",
         "long-unicode-brace": "'\\u{" + "0" * 5000 + "41}'", "long-number-then-ident": "1" * 30 + "abc", "bom-first": "\ufeff1", "nul-inside": "1;\x001", "lone-surrogates": "'\ud800' + '\udc00'",
     }
+    # counts swept across the one-byte operand boundary of the instruction format, one count at a time, in every construct that puts
+    # a count or an index into an operand; and block sizes swept byte by byte across the two-byte jump boundary
+    for n in list(range(250, 262)) + [511, 512, 513, 65535, 65536, 65537]:
+        if n < 1000:
+            t["boundary-array-literal-%d" % n] = "[" + ",".join(["1"] * n) + "].length"
+            t["boundary-call-args-%d" % n] = "(function () { return arguments.length; })(" + ",".join(["1"] * n) + ")"
+            t["boundary-new-args-%d" % n] = "new (function () { this.n = arguments.length; })(" + ",".join(["1"] * n) + ").n"
+            t["boundary-method-args-%d" % n] = "Math.max(" + ",".join(["1"] * n) + ")"
+            t["boundary-constants-%d" % n] = "[" + ",".join("'c%d'" % i for i in range(n)) + "].length"
+            t["boundary-number-constants-%d" % n] = "+".join(str(i) for i in range(n))
+            t["boundary-names-%d" % n] = "var " + ",".join("g%d=1" % i for i in range(n)) + "; g0"
+            t["boundary-locals-%d" % n] = "(function(){ var " + ",".join("v%d=%d" % (i, i) for i in range(n)) + "; return v0 })()"
+            t["boundary-params-%d" % n] = "(function(" + ",".join("p%d" % i for i in range(n)) + "){ return p0 })(1)"
+            t["boundary-object-props-%d" % n] = "({" + ",".join("k%d:1" % i for i in range(n)) + "}).k0"
+            t["boundary-captured-%d" % n] = "(function(){ var " + ",".join("c%d=1" % i for i in range(n)) + "; return function () { return " + "+".join("c%d" % i for i in range(n)) + "; }; })()()"
+            t["boundary-in-function-consts-%d" % n] = "(function () { return [" + ",".join("'d%d'" % i for i in range(n)) + "].length; })()"
+        else:
+            t["boundary-array-literal-%d" % n] = "[" + ",".join(["1"] * n) + "].length"
+            # (no 65536-argument call: the reference refuses that with a SyntaxError of its own capacity, which says nothing about the grammar)
+    for pad in range(0, 12):
+        for n in (6551, 6552, 6553, 6554):
+            body = "s += 1; " * n + "0; " * pad
+            t["boundary-jump-if-%d-%d" % (n, pad)] = "var s = 0, x = 1; if (x) { " + body + "} else { s = -1; } s"
+            if pad % 3 == 0:
+                t["boundary-jump-while-%d-%d" % (n, pad)] = "var s = 0, i = 0; while (i < 1) { i++; " + body + "} s"
+                t["boundary-jump-try-%d-%d" % (n, pad)] = "var s = 0; try { " + body + "} catch (e) { s = -1; } s"
     return sorted(t.items())
 
 
@@ -333,6 +359,83 @@ def api_cases(rng, surface, quick, seed):
     return cases, len(methods)
 
 
+# values whose SHAPE is the hazard (built at run time, so no parser limit applies): cycles, depth, long chains.  Every
+# conversion, traversal, comparison or copy of them is host work that recurses or loops on their structure.
+MONSTERS = [
+    ("array", "cyclic-array", "var M = [1]; M.push(M);"),
+    ("array", "cyclic-array-indirect", "var M = [1, [2]]; M[1].push(M);"),
+    ("array", "array-of-cyclic-object", "var M = [{a: 1}]; M[0].self = M;"),
+    ("object", "cyclic-object", "var M = {a: 1}; M.self = M;"),
+    ("object", "cyclic-object-via-array", "var M = {a: []}; M.a.push(M);"),
+    ("array", "deep-array", "var M = [1]; for (var i = 0; i < 3000; i++) { M = [M]; }"),
+    ("array", "deep-array-wide", "var M = [1]; for (var i = 0; i < 3000; i++) { M = [0, M, 'x']; }"),
+    ("object", "deep-object", "var M = {v: 1}; for (var i = 0; i < 3000; i++) { M = {k: M}; }"),
+    ("array", "deep-mixed", "var M = [1]; for (var i = 0; i < 2000; i++) { M = [{k: M}]; }"),
+    ("object", "long-prototype-chain", "var M = {base: 1}; for (var i = 0; i < 3000; i++) { M = Object.create(M); }"),
+    ("function", "deep-bound-function", "var M = function (a) { return a; }; for (var i = 0; i < 3000; i++) { M = M.bind(null); }"),
+    ("function", "deep-closure-chain", "var M = function () { return 1; }; for (var i = 0; i < 2000; i++) { M = (function (g) { return function () { return g(); }; })(M); }"),
+    ("object", "getter-chain", "var M = {v: 1}; for (var i = 0; i < 2000; i++) { M = (function (inner) { return {get v() { return inner.v; }}; })(M); }"),
+    ("object", "valueOf-chain", "var M = {valueOf: function () { return 1; }}; for (var i = 0; i < 2000; i++) { M = (function (inner) { return {valueOf: function () { return inner + 0; }, toString: function () { return String(inner); }}; })(M); }"),
+    ("array", "long-array", "var M = []; for (var i = 0; i < 9000; i++) { M.push(i % 7); }"),
+    ("string", "long-string", "var M = 'ab'.repeat(1500);"),
+    ("object", "error-with-cyclic-props", "var M = new Error('m'); M.cause = M; M.list = [M];"),
+    ("object", "wide-object", "var M = {}; for (var i = 0; i < 5000; i++) { M['k' + i] = i; }"),
+    ("array", "array-of-deep", "var D = [1]; for (var i = 0; i < 3000; i++) { D = [D]; } var M = [D, D, 3];"),
+    ("object", "proto-of-array-cyclic", "var M = Object.create([1, 2]); M.me = M;"),
+]
+MONSTER_ARGS = ["", "M", "M, M", "0", "1, M", "function (a, b) { return M; }", "function (a, b) { return a < b ? -1 : 1; }", "'k'", "undefined, M", "null", "-1", "M, 0", "'', M"]
+MONSTER_OPS = ["String(M)", "M + ''", "'' + [M]", "M + M", "M < M", "M == M", "M == 1", "M == 'x'", "JSON.stringify(M)", "JSON.stringify([M])", "JSON.stringify({k: M})", "[M].join()", "[M, M].toString()", "M.toString()",
+               "Number(M)", "parseInt(M)", "parseFloat(M)", "isNaN(M)", "isFinite(M)", "+M", "-M", "~M", "!M", "typeof M", "M ? 1 : 2", "M && 1", "M || 1", "({})[M]", "var o = {}; o[M] = 1; Object.keys(o)", "M in {}", "'x' in M",
+               "M instanceof Array", "M instanceof Object", "({}) instanceof M", "Object.keys(M)", "Object.values(M)", "Object.entries(M)", "Object.assign({}, M)", "Object.assign(M, M)", "Object.create(M)", "Object.getPrototypeOf(M)",
+               "Object.setPrototypeOf({}, M)", "Object.setPrototypeOf(M, M)", "Object.defineProperty({}, 'k', M)", "Object.defineProperty(M, 'k', {value: M})", "Object.prototype.toString.call(M)", "Object.prototype.hasOwnProperty.call(M, 'k')",
+               "Object.prototype.isPrototypeOf.call(M, M)", "M.hasOwnProperty('v')", "for (var k in M) { M[k]; }", "var n = 0; for (var v of M) { n++; } n", "Array.isArray(M)", "Array.from(M)", "Array.of(M)", "[].concat(M)", "[M].concat([M])",
+               "[1, 2].indexOf(M)", "[M].indexOf(M)", "[M].includes(M)", "[M, 1].sort()", "[M, M].sort(function (a, b) { return a < b ? -1 : 1; })", "[M].map(String)", "[M].filter(Boolean)", "[3, M].reduce(function (a, b) { return a + b; })",
+               "Math.max(M)", "Math.max.apply(null, M)", "Math.floor(M)", "Math.abs(M)", "new Error(M).message", "new Error('x', {cause: M})", "throw M", "try { throw M; } catch (e) { String(e); }", "new RegExp(M)", "/x/.test(M)", "'abc'.indexOf(M)",
+               "'abc'.replace('b', M)", "'abc'.replace(/b/, M)", "'abc'.split(M)", "'abc'.concat(M)", "'abc'.includes(M)", "'a'.repeat(M)", "'a'.padStart(5, M)", "'abc'.slice(M)", "'abc'.charAt(M)", "'abc'.localeCompare && 'abc'.localeCompare(M)",
+               "String.fromCharCode(M)", "new Array(M)", "new Int8Array(M)", "new Uint8Array([M])", "new Date(M)", "new String(M)", "new Number(M)", "new Boolean(M)", "new Object(M)", "Function.prototype.call.call(function () { return this; }, M)",
+               "(function () { return arguments; }).apply(null, M)", "(function () { return arguments.length; }).apply(null, M)", "(function (a) { return a; }).bind(M)()", "(function () { return this; }).call(M)", "Function.prototype.apply.call(Math.max, null, M)",
+               "M()", "new M()", "M.call(null)", "M.apply(null, [1])", "M.bind(null)(1)", "M.length", "M.name", "M.v", "M.k", "M.base", "M[0]", "M.nosuch", "M.v = 1", "delete M.v", "M.length = 0", "M.length = 5", "typeof M.valueOf()", "M.constructor",
+               "console.log(M)", "eval(M)", "(0, eval)(M)", "new Function(M)", "new Function('a', M)", "switch (M) { case M: 1; break; default: 2; }", "var c = M; c === M", "[M].lastIndexOf(M)", "[[M]].flat ? [[M]].flat(Infinity) : 0",
+               "encodeURIComponent ? 0 : 1", "Number.isInteger(M)", "Number.parseFloat(M)", "(5).toString(M)", "(5).toFixed(M)", "isNaN(M.length)", "Array.prototype.slice.call(M)", "Array.prototype.join.call(M, M)", "Array.prototype.map.call(M, function (x) { return x; })",
+               "Array.prototype.concat.call(M, M)", "Array.prototype.push.call(M, M)", "Array.prototype.reverse.call(M)", "Array.prototype.sort.call(M)", "Array.prototype.indexOf.call(M, M)", "String.prototype.trim.call(M)", "String.prototype.split.call(M, '')",
+               "String.prototype.replace.call(M, M, M)", "RegExp.prototype.test.call(/a/, M)", "RegExp.prototype.exec.call(/a/, M)", "Object.freeze ? Object.freeze(M) : 0", "Object.keys(M).length", "JSON.parse(JSON.stringify(M))"]
+
+
+def monster_cases(surface):
+    cases = []
+    for base, name, build in MONSTERS:
+        for op in MONSTER_OPS:
+            for wrap in ("%s", "try { %s } catch (e) { String(e); [e.name, e.message]; }"):
+                src = build + "\n" + (wrap % op)
+                cases.append({"id": h(["monster-op", name, op, wrap[:3]]), "fam": "api", "ident": ["monster:" + name, "op:" + op[:40], 0], "src": src})
+        for mname in surface["methods"].get(base, []):
+            for a in MONSTER_ARGS:
+                cases.append({"id": h(["monster-recv", name, mname, a]), "fam": "api", "ident": ["monster:" + name, mname, 1], "src": build + "\nM[%s](%s)" % (json.dumps(mname), a)})
+    # as an argument of everything else
+    for kind, expr in RECEIVERS:
+        for mname in surface["methods"].get(kind, []):
+            for bi, (base, name, build) in enumerate(MONSTERS):
+                if (hash_small([kind, mname]) + bi) % 4:
+                    continue
+                for a in ("M", "M, M", "0, M"):
+                    cases.append({"id": h(["monster-arg", name, kind, mname, a]), "fam": "api", "ident": ["monster-arg:" + name, kind + "." + mname, 2], "src": build + "\nvar r = %s; r[%s](%s)" % (expr, json.dumps(mname), a)})
+    for g, ty in surface["globals"]:
+        for bi, (base, name, build) in enumerate(MONSTERS):
+            if ty == "function":
+                cases.append({"id": h(["monster-g", name, g]), "fam": "api", "ident": ["monster-arg:" + name, g + "()", 2], "src": build + "\n%s(M)" % g})
+                cases.append({"id": h(["monster-gn", name, g]), "fam": "api", "ident": ["monster-arg:" + name, "new " + g, 2], "src": build + "\nnew %s(M)" % g})
+            for mname in surface["methods"].get("global:" + g, []):
+                if (hash_small([g, mname]) + bi) % 2:
+                    continue
+                for a in ("M", "M, M"):
+                    cases.append({"id": h(["monster-s", name, g, mname, a]), "fam": "api", "ident": ["monster-arg:" + name, g + "." + mname, 2], "src": build + "\n%s[%s](%s)" % (g, json.dumps(mname), a)})
+    return cases
+
+
+def hash_small(x):
+    return int(h(x, 6), 16)
+
+
 # ------------------------------------------------------------------------------------------------ position oracles
 def line_starts(src):
     return [0] + [m.end() for m in re.finditer(r"\n", src)]
@@ -385,6 +488,10 @@ def main(ctx):
         surface = {"globals": surf0["globals"], "methods": dict(surf0["methods"])}
         surface["methods"].update(surf1.get("methods", {}))
         acases, nmethods = api_cases(rng, surface, quick, ctx.seed)
+        mcases = monster_cases(surface)
+        if quick:
+            mcases = [c for i, c in enumerate(mcases) if (i + ctx.seed) % 3 == 0 or (c["ident"][2] == 0 and (i + ctx.seed) % 2 == 0)]
+        acases += mcases
         if nmethods < 150:
             ctx.inconclusive_because("API surface discovery found only %d callables" % nmethods)
         # ---- front-end strings
